@@ -1052,7 +1052,29 @@ func (f *frame) applyContract(at ssa.Instruction, ct *Contract, args []T, st *St
 		for _, en := range list {
 			if mentionsCallGhost(en.Expr) {
 				// called()/callcount()/lastresult()... speak about the calls the CALLEE made while it was verified; at a
-				// call site the same names denote the caller's own ghosts, so such a clause is not exported
+				// call site the same names denote the caller's own ghosts, so such a clause is not exported -- the
+				// ghost-free top-level conjuncts of the clause are
+				var conj func(x ast.Expr)
+				conj = func(x ast.Expr) {
+					switch y := x.(type) {
+					case *ast.ParenExpr:
+						conj(y.X)
+						return
+					case *ast.BinaryExpr:
+						if y.Op == token.LAND {
+							conj(y.X)
+							conj(y.Y)
+							return
+						}
+					}
+					if mentionsCallGhost(x) {
+						return
+					}
+					if t, err := penv.evalBool(&SpecExpr{Expr: x, Text: en.Text, Src: en.Src, Tags: en.Tags}); err == nil {
+						e.assume(implies(st.cond, t))
+					}
+				}
+				conj(en.Expr)
 				continue
 			}
 			t, err := penv.evalBool(en)
